@@ -318,6 +318,16 @@ func (h *hist) execOp(ctx context.Context, f []string) string {
 		out = "ok"
 	case "authorize", "authorizeRU":
 		out = h.execAuthorize(ctx, f)
+	case "redeemAs":
+		// redeemAs authClient cred code redirect verifier scopes aud bodyClient: HTTP Basic as authClient, the body
+		// names another client
+		form := url.Values{"grant_type": {"authorization_code"}, "client_id": {f[8]}}
+		setIf(form, "code", h.present(f[3]))
+		setIf(form, "redirect_uri", f[4])
+		setIf(form, "code_verifier", f[5])
+		setIf(form, "scope", strings.Join(decList(f[6]), " "))
+		setIf(form, "audience", strings.Join(decList(f[7]), " "))
+		out = h.execToken(ctx, form, f[1], f[2])
 	case "redeem":
 		form := url.Values{"grant_type": {"authorization_code"}, "client_id": {f[1]}}
 		setIf(form, "code", h.present(f[3]))
